@@ -263,6 +263,12 @@ func (idx *HNSWIndex) Add(vector VectorNode) error {
 		idx.nextID++
 	}
 
+	// Re-adding a soft-deleted ID: purge the stale vertex first so that it
+	// neither hides the new one nor takes it along at the next Flush
+	if idx.deletedNodes.Contains(id) {
+		idx.flushLocked()
+	}
+
 	// Update max level
 	if level > idx.maxLevel {
 		idx.maxLevel = level
@@ -350,6 +356,11 @@ func (idx *HNSWIndex) Flush() error {
 	idx.mu.Lock()
 	defer idx.mu.Unlock()
 
+	return idx.flushLocked()
+}
+
+// flushLocked is Flush for callers that already hold the write lock.
+func (idx *HNSWIndex) flushLocked() error {
 	// Quick exit if nothing to flush
 	deletedCount := int(idx.deletedNodes.GetCardinality())
 	if deletedCount == 0 {
